@@ -17,19 +17,19 @@ def sh(cmd, cwd, timeout=900):
 
 
 def confirm(job):
-    src, pid, letter = job
+    src, pid, letter, sl = job
     diff = os.path.join(src, f"ref_{letter}.diff")
     eq = os.path.join(src, f"ref_{letter}_equiv.py")
     meta = os.path.join(src, f"ref_{letter}_meta.json")
     if not (os.path.exists(diff) and os.path.exists(eq)):
-        return pid, letter, dict(ok=False, why="missing files")
+        return pid, sl, dict(ok=False, why="missing files")
     wt = tempfile.mkdtemp(prefix="benwt_")
     os.rmdir(wt)
     sh(f"git -C /repo worktree add -q --detach {wt} HEAD", "/")
     try:
         rc, out = sh(f"git apply {diff}", wt)
         if rc != 0:
-            return pid, letter, dict(ok=False, why="patch does not apply: " + out[-200:])
+            return pid, sl, dict(ok=False, why="patch does not apply: " + out[-200:])
         shutil.copy(eq, os.path.join(wt, "equiv.py"))
         rct, outt = sh(f"{PY} -m pytest -q -p no:cacheprovider --deselect tests/test_parser.py::TestArgumentParsing::test_invalid_file_argument", wt)
         tail = outt.strip().splitlines()[-1] if outt.strip() else ""
@@ -37,7 +37,7 @@ def confirm(job):
         ok = rct == 0 and "124 passed" in tail and rce == 0
         res = dict(ok=ok, tests=tail, equiv_exit=rce, equiv_tail=oute.strip().splitlines()[-2:])
         if ok:
-            dst = os.path.join(HERE, "benign_refactors", f"{pid}-{letter}")
+            dst = os.path.join(HERE, "benign_refactors", f"{pid}-{sl}")
             os.makedirs(dst, exist_ok=True)
             shutil.copy(diff, os.path.join(dst, "patch.diff"))
             shutil.copy(eq, os.path.join(dst, "equiv.py"))
@@ -46,7 +46,7 @@ def confirm(job):
                           confirmed=dict(ran=["git apply patch.diff (scratch worktree of /repo HEAD)", f"{PY} -m pytest -q -> {tail}",
                                               f"{PY} equiv.py (old vs new on thousands of inputs) -> exit {rce}"])))
             json.dump(m, open(os.path.join(dst, "meta.json"), "w"), indent=1)
-        return pid, letter, res
+        return pid, sl, res
     finally:
         sh(f"git -C /repo worktree remove --force {wt}", "/")
         shutil.rmtree(wt, ignore_errors=True)
@@ -55,7 +55,8 @@ def confirm(job):
 if __name__ == "__main__":
     src = ([a[6:] for a in sys.argv[1:] if a.startswith("--src=")] or ["/tmp/ben1"])[0]
     only = [a for a in sys.argv[1:] if not a.startswith("--")]
-    jobs = [(d, os.path.basename(d), l) for d in sorted(glob.glob(src + "/C*")) for l in "ABC" if not only or os.path.basename(d) in only]
+    store = ([a[8:] for a in sys.argv[1:] if a.startswith("--store=")] or ["ABC"])[0]
+    jobs = [(d, os.path.basename(d), l, sl) for d in sorted(glob.glob(src + "/C*")) for l, sl in zip("ABC", store) if not only or os.path.basename(d) in only]
     with ThreadPoolExecutor(max_workers=10) as ex:
         for pid, letter, res in ex.map(confirm, jobs):
             print(pid, letter, json.dumps(res)[:260], flush=True)
